@@ -5,6 +5,9 @@ From DD Require Import Model.Circuit Model.LexerD4 Spec.D4Sem Spec.D4Conform.
 Import ListNotations.
 Local Open Scope nat_scope.
 
+Fixpoint PW {A} (R : A -> A -> Prop) (l : list A) : Prop :=
+  match l with [] => True | x :: r => Forall (R x) r /\ PW R r end.
+
 Lemma forallb_In {A} (p : A -> bool) l x : forallb p l = true -> In x l -> p x = true.
 Proof. intros H. now apply forallb_forall. Qed.
 
@@ -166,5 +169,69 @@ Proof.
       unfold is_kind in Hl; rewrite Hk in Hl; cbn [orb] in Hl; destruct (edges toks i); [destruct He|discriminate] end.
   - match goal with Hl : (if is_kind toks i KTrue || is_kind toks i KFalse then _ else _) = true |- _ =>
       unfold is_kind in Hl; rewrite Hk in Hl; cbn [orb] in Hl; destruct (edges toks i); [destruct He|discriminate] end.
+Qed.
+
+(* ---------- or nodes ---------- *)
+Definition exempt (e : list Z * nat) : Prop := fst e = [] /\ is_kind toks (snd e) KFalse = true.
+Definition Redge (a b : list Z * nat) : Prop :=
+  exempt a \/ exempt b \/ (fst a <> [] /\ fst b <> [] /\ conflict (fst a) (fst b) = true).
+
+Lemma cf_or i : 1 <= i <= K -> kind toks i = Some KOr -> or_ok toks i = true.
+Proof.
+  intros Hi Hk. pose proof (cf_node i Hi) as Hn. unfold node_ok in Hn.
+  repeat (apply andb_true_iff in Hn; destruct Hn as [Hn ?]).
+  match goal with Hl : (if is_kind toks i KOr then _ else _) = true |- _ =>
+    unfold is_kind in Hl; rewrite Hk in Hl; exact Hl end.
+Qed.
+
+Lemma filter_PW {A} (q ne : A -> bool) (p : A -> A -> bool) l :
+  forallb ne (filter q l) = true -> pairwiseb p (filter q l) = true ->
+  PW (fun x y => q x = false \/ q y = false \/ (ne x = true /\ ne y = true /\ p x y = true)) l.
+Proof.
+  induction l as [|x r IH]; intros H1 H2; [exact I|]. cbn [filter] in H1, H2. destruct (q x) eqn:Ex.
+  - cbn [forallb pairwiseb] in H1, H2. apply andb_true_iff in H1. destruct H1 as [Hx H1].
+    apply andb_true_iff in H2. destruct H2 as [Hp H2]. split; [|now apply IH].
+    apply Forall_forall. intros y Hy. destruct (q y) eqn:Ey; [|right; now left]. right. right.
+    assert (Hyf : In y (filter q r)) by (apply filter_In; now split).
+    split; [exact Hx|]. split; [exact (forallb_In _ _ y H1 Hyf)|exact (forallb_In _ _ y Hp Hyf)].
+  - split; [|now apply IH]. apply Forall_forall. intros y _. now left.
+Qed.
+
+Lemma conflict_spec a b : conflict a b = true -> exists l, In l a /\ In (- l)%Z b.
+Proof.
+  unfold conflict. intros Hx. apply existsb_exists in Hx. destruct Hx as [l [Hl Hx]].
+  apply existsb_exists in Hx. destruct Hx as [l' [Hl' E]]. apply Z.eqb_eq in E. subst l'. now exists l.
+Qed.
+
+Lemma conflict_sym a b : conflict a b = true -> conflict b a = true.
+Proof.
+  intros Hx. destruct (conflict_spec a b Hx) as [l [H1 H2]]. unfold conflict. apply existsb_exists.
+  exists (- l)%Z. split; [exact H2|]. apply existsb_exists. exists l. split; [exact H1|]. apply Z.eqb_eq. lia.
+Qed.
+
+Lemma Redge_sym a b : Redge a b -> Redge b a.
+Proof.
+  intros [Hx|[Hx|[H1 [H2 H3]]]]; [right; now left|now left|]. right. right. repeat split; auto. now apply conflict_sym.
+Qed.
+Lemma or_ok_cases i : or_ok toks i = true ->
+  (exists to, edges toks i = [([], to)]) \/ PW Redge (edges toks i).
+Proof.
+  intros Ho. unfold or_ok in Ho.
+  set (q := fun e : list Z * nat => negb (match fst e with [] => is_kind toks (snd e) KFalse | _ => false end)) in *.
+  set (ne := fun e : list Z * nat => match fst e with [] => false | _ => true end) in *.
+  assert (Hgen : forallb ne (filter q (edges toks i)) && pairwiseb (fun a b => conflict (fst a) (fst b)) (filter q (edges toks i)) = true ->
+                 PW Redge (edges toks i)).
+  { intros Hb. apply andb_true_iff in Hb. destruct Hb as [H1 H2].
+    pose proof (filter_PW q ne _ _ H1 H2) as HP. clear -HP.
+    assert (Hconv : forall a b, (q a = false \/ q b = false \/ (ne a = true /\ ne b = true /\ conflict (fst a) (fst b) = true)) -> Redge a b).
+    { intros a b [Hx|[Hx|[Ha [Hb Hc]]]].
+      - left. unfold q in Hx. apply negb_false_iff in Hx. destruct (fst a) eqn:Ea; [now split|discriminate].
+      - right. left. unfold q in Hx. apply negb_false_iff in Hx. destruct (fst b) eqn:Eb; [now split|discriminate].
+      - right. right. unfold ne in Ha, Hb. split; [destruct (fst a); [discriminate|discriminate]|].
+        split; [destruct (fst b); [discriminate|discriminate]|exact Hc]. }
+    induction (edges toks i) as [|x r IH]; [exact I|]. destruct HP as [HF HP]. split; [|now apply IH].
+    eapply Forall_impl; [|exact HF]. intros y. apply Hconv. }
+  destruct (edges toks i) as [|[[|l ls] to] [|e2 r]] eqn:Ee; try (right; now apply Hgen).
+  left. now exists to.
 Qed.
 End Conf.
